@@ -85,7 +85,10 @@ func c18Configs(tier string) []c18Cfg {
 	for _, st := range []string{"block", "drop", "expand"} {
 		out = append(out, c18Cfg{Kind: "direct", Strategy: st, Threads: "PS", Sink: "gate", Rows: 5})
 	}
-	out = append(out, c18Cfg{Kind: "counting", Strategy: "block", Threads: "PS", Sink: "gate", Rows: 5})
+	for _, k := range []string{"counting", "global", "tumbling-evt", "session-evt", "sliding-proc"} { // (not MATCH_RECOGNIZE: Stop itself delivers its flush to the sinks, the gate would wait for its own thread)
+		// every row (or window) fires: the window output buffer (2) fills behind the gated sink while Stop runs
+		out = append(out, c18Cfg{Kind: k, Strategy: "block", Threads: "PS", Sink: "gate", Rows: 5})
+	}
 	// (DataChannelSize 0 - an unbuffered input channel - is exercised by the free-running pass only: the scheduler
 	// models buffered channels and closed-only unbuffered ones, not rendezvous sends inside select)
 	if tier == "thorough" {
